@@ -145,6 +145,8 @@ type Op struct {
 	ReuseD   bool       `json:"reuse_dict,omitempty"`
 	Nested   *Op        `json:"nested,omitempty"` // a read issued from inside the visitor callback
 	G        int        `json:"g,omitempty"`
+	NoCount  bool       `json:"nocount,omitempty"`
+	NoStats  bool       `json:"nostats,omitempty"`
 }
 
 type Scenario struct {
@@ -187,6 +189,9 @@ type Env struct {
 	cov      map[string]int
 	itFlags  map[int]itFlags
 	batchBase int
+	lastPl, lastIt int
+	dvrSeg    map[int]int
+	docnums   map[int][][]int
 	sink     func(M) // when set, events go here instead of the trace (digests)
 }
 
@@ -197,7 +202,7 @@ func NewEnv(tr *Trace, sc *Scenario, workdir string) *Env {
 		pls:   map[int]segment.PostingsList{}, its: map[int]segment.PostingsIterator{},
 		dvrs:  map[int]segment.DocumentValueReader{}, bms: map[int]*roaring.Bitmap{},
 		objIDs: map[interface{}]int{}, nextObj: 1000,
-		watchdog: 20 * time.Second, cov: map[string]int{}, itFlags: map[int]itFlags{}}
+		watchdog: 20 * time.Second, cov: map[string]int{}, itFlags: map[int]itFlags{}, docnums: map[int][][]int{}, dvrSeg: map[int]int{}}
 }
 
 func (e *Env) Close() {
@@ -383,6 +388,18 @@ func (e *Env) Do(op *Op) {
 		e.doItReplace(op)
 	case "it_next", "it_adv":
 		e.doItStep(op)
+	case "it_open_last":
+		o := *op
+		o.Op, o.Pl = "it_open", e.lastPl
+		e.doItOpen(&o)
+	case "it_next_last", "it_adv_last":
+		o := *op
+		o.Op, o.It = strings.TrimSuffix(op.Op, "_last"), e.lastIt
+		e.doItStep(&o)
+	case "merge_translated":
+		e.doMergeTranslated(op)
+	case "same_obs":
+		e.doSameObs(op)
 	case "it_count":
 		e.doItCount(op)
 	case "stored":
@@ -531,6 +548,7 @@ func (e *Env) doMerge(op *Op) {
 			}
 		}
 		res["docnums"] = out
+		e.docnums[op.File] = out
 		res["footer"] = footerOf(data)
 	}
 	e.emit(M{"ev": "merge", "file": op.File, "in": op.In, "drops": dropsEv, "mode": int(mode),
@@ -717,7 +735,11 @@ func (e *Env) doDict(op *Op) {
 			if err != nil || en == nil {
 				return
 			}
-			entries = append(entries, M{"term": B([]byte(en.Term())), "count": clampInt(en.Count())})
+			cnt := clampInt(en.Count())
+			if op.NoCount {
+				cnt = -1
+			}
+			entries = append(entries, M{"term": B([]byte(en.Term())), "count": cnt})
 			if len(entries) > 100000 {
 				err = fmt.Errorf("runaway dictionary iterator")
 				return
@@ -729,7 +751,7 @@ func (e *Env) doDict(op *Op) {
 		res["entries"] = entries
 	}
 	e.emit(M{"ev": "dict", "seg": op.Seg, "field": op.Field, "lo": boundEv(op.Lo), "hi": boundEv(op.Hi),
-		"aut": autEv(op.Aut), "reuse_dict": op.ReuseD, "res": res})
+		"aut": autEv(op.Aut), "reuse_dict": op.ReuseD, "nocount": op.NoCount, "res": res})
 }
 
 func (e *Env) doContains(op *Op) {
@@ -801,6 +823,7 @@ func (e *Env) doPlOpen(op *Op) int {
 	}
 	e.emit(M{"ev": "pl_open", "seg": op.Seg, "field": op.Field, "term": nn(op.Term), "except": e.dropEv(op.Except),
 		"prealloc": op.Prealloc, "pl": id, "reuse_dict": op.ReuseD, "res": res})
+	e.lastPl = id
 	return id
 }
 
@@ -820,6 +843,7 @@ func (e *Env) doItOpen(op *Op) int {
 	if pl == nil {
 		e.emit(M{"ev": "it_open", "pl": op.Pl, "it": 0, "freq": op.Freq, "norm": op.Norm, "locs": op.Locs,
 			"prealloc": op.Prealloc, "res": M{"kind": "nopl"}})
+		e.lastIt = 0
 		return 0
 	}
 	var pre segment.PostingsIterator
@@ -831,6 +855,7 @@ func (e *Env) doItOpen(op *Op) int {
 	class := e.call(func() { it, err = pl.Iterator(op.Freq, op.Norm, op.Locs, pre) })
 	res := resKind(class, err)
 	id := 0
+	onehit := false
 	if res["kind"] == "ok" {
 		if it == nil {
 			res = M{"kind": "nilresult"}
@@ -840,14 +865,15 @@ func (e *Env) doItOpen(op *Op) int {
 			e.itFlags[id] = itFlags{op.Freq, op.Norm, op.Locs}
 			if o, ok := it.(segment.OptimizablePostingsIterator); ok {
 				if _, is1 := o.DocNum1Hit(); is1 {
-					res["onehit"] = true
+					onehit = true // an encoding detail (probe), not part of the observation
 					e.cov["onehit_iter"]++
 				}
 			}
 		}
 	}
 	e.emit(M{"ev": "it_open", "pl": op.Pl, "it": id, "freq": op.Freq, "norm": op.Norm, "locs": op.Locs,
-		"prealloc": op.Prealloc, "res": res})
+		"prealloc": op.Prealloc, "onehit": onehit, "res": res})
+	e.lastIt = id
 	return id
 }
 
@@ -971,6 +997,7 @@ func (e *Env) doDvOpen(op *Op) {
 	res := resKind(class, err)
 	if res["kind"] == "ok" {
 		e.dvrs[op.R] = r
+		e.dvrSeg[op.R] = op.Seg
 	}
 	fs := op.Fields
 	if fs == nil {
@@ -984,6 +1011,15 @@ func (e *Env) doDvVisit(op *Op) {
 	if r == nil {
 		e.emit(M{"ev": "dv_visit", "r": op.R, "n": op.N, "res": M{"kind": "noreader"}})
 		return
+	}
+	if h := e.segs[e.dvrSeg[op.R]]; h != nil {
+		// contract: doc values are only requested for existing documents
+		cnt := uint64(0)
+		runRecover(func() { cnt = h.seg.Count() })
+		if uint64(op.N) >= cnt {
+			e.emit(M{"ev": "skip", "op": "dv_visit"})
+			return
+		}
 	}
 	vals := []M{}
 	var err error
@@ -1075,21 +1111,24 @@ func (e *Env) doStatsMerge(op *Op) {
 // digests for C15: a segment's digest covers its full observation and the
 // bytes it persists; a bitmap's digest covers membership and serialised form.
 
-func (e *Env) segDigest(h *segH) string {
+func (e *Env) segDigest(h *segH, withBytes bool) string {
 	sub := &Env{tr: nil, sc: e.sc, norm: e.norm, segs: map[int]*segH{1: h}, files: map[int][]byte{},
 		pls: map[int]segment.PostingsList{}, its: map[int]segment.PostingsIterator{},
 		dvrs: map[int]segment.DocumentValueReader{}, bms: map[int]*roaring.Bitmap{},
 		objIDs: map[interface{}]int{}, nextObj: 1000, watchdog: e.watchdog, inline: true, cov: map[string]int{},
-		itFlags: map[int]itFlags{}}
+		itFlags: map[int]itFlags{}, docnums: map[int][][]int{}, dvrSeg: map[int]int{}}
 	hs := sha256.New()
 	sub.sink = func(ev M) {
 		delete(ev, "g")
+		delete(ev, "onehit")
 		fmt.Fprintf(hs, "%v\n", canon(ev))
 	}
 	sub.doObserve(&Op{Op: "observe", Seg: 1, Level: "full"})
-	var buf bytes.Buffer
-	cl := runRecover(func() { h.seg.WriteTo(&buf, nil) })
-	fmt.Fprintf(hs, "bytes:%s:%s", cl, digest(buf.Bytes()))
+	if withBytes {
+		var buf bytes.Buffer
+		cl := runRecover(func() { h.seg.WriteTo(&buf, nil) })
+		fmt.Fprintf(hs, "bytes:%s:%s", cl, digest(buf.Bytes()))
+	}
 	return hex.EncodeToString(hs.Sum(nil)[:8])
 }
 
@@ -1132,7 +1171,7 @@ func (e *Env) doDigest(op *Op) {
 		if len(op.In) > 0 && !containsInt(op.In, h) {
 			continue
 		}
-		segs = append(segs, M{"seg": h, "d": e.segDigest(e.segs[h])})
+		segs = append(segs, M{"seg": h, "d": e.segDigest(e.segs[h], true)})
 	}
 	bms := []M{}
 	bs := make([]int, 0, len(e.bms))
@@ -1218,7 +1257,9 @@ func (e *Env) doObserve(op *Op) {
 	count := 0
 	runRecover(func() { count = int(h.seg.Count()) })
 	for _, f := range fields {
-		e.doStats(&Op{Seg: op.Seg, Field: f})
+		if !op.NoStats {
+			e.doStats(&Op{Seg: op.Seg, Field: f})
+		}
 		// the dictionary's own enumeration decides which terms are queried, plus the vocabulary
 		q := map[string]bool{}
 		for _, t := range terms[f] {
@@ -1243,7 +1284,7 @@ func (e *Env) doObserve(op *Op) {
 		for _, t := range listed {
 			q[t] = true
 		}
-		e.doDict(&Op{Seg: op.Seg, Field: f})
+		e.doDict(&Op{Seg: op.Seg, Field: f, NoCount: op.NoCount})
 		if light {
 			continue
 		}
@@ -1294,6 +1335,7 @@ func (e *Env) drain(seg int, field string, term []byte, except *DropSpec, freq, 
 
 // forget drops harness bookkeeping for temporary objects (the objects stay valid).
 func (e *Env) forget(plID, itID int) {
+	e.emit(M{"ev": "forget", "pl": plID, "it": itID})
 	if pl, ok := e.pls[plID]; ok && plID >= 1000 {
 		delete(e.pls, plID)
 		delete(e.objIDs, pl)
@@ -1308,3 +1350,52 @@ func (e *Env) forget(plID, itID int) {
 // doLayout is defined in layout.go
 
 var _ = io.EOF
+
+// doMergeTranslated performs a second-level merge whose first drop set is given against the
+// ORIGINAL segments of an earlier merge and is translated through the document numbers that
+// merge reported (C17). The event is an ordinary merge event with the concrete sets.
+func (e *Env) doMergeTranslated(op *Op) {
+	o := *op
+	o.Op = "merge"
+	o.Nested = nil
+	o.Drops = append([]DropSpec{}, op.Drops...)
+	for i := range o.Drops {
+		if o.Drops[i].Kind != "translate" {
+			continue
+		}
+		dn := e.docnums[o.Drops[i].Bm]
+		docs := []int{}
+		if dn == nil || op.Nested == nil {
+			e.emit(M{"ev": "skip", "op": "merge_translated"})
+			return
+		}
+		for si, d := range op.Nested.Drops {
+			if si >= len(dn) {
+				break
+			}
+			for _, n := range d.Docs {
+				if n < len(dn[si]) && dn[si][n] >= 0 {
+					docs = append(docs, dn[si][n])
+				}
+			}
+		}
+		o.Drops[i] = DropSpec{Kind: "set", Docs: docs}
+	}
+	if e.missing(&o) {
+		e.emit(M{"ev": "skip", "op": "merge_translated"})
+		return
+	}
+	e.doMerge(&o)
+}
+
+// doSameObs records the observation digests (no bytes) of segments that a metamorphic
+// relation says must be observationally identical.
+func (e *Env) doSameObs(op *Op) {
+	ds := []M{}
+	for _, h := range op.In {
+		if s := e.segs[h]; s != nil {
+			ds = append(ds, M{"seg": h, "d": e.segDigest(s, false)})
+		}
+	}
+	e.emit(M{"ev": "same_obs", "segs": ds})
+}
